@@ -195,7 +195,7 @@ def run(prop, tier, replay):
     if prop == "C02" and not replay:
         # feature programs that carry their own oracle (`selfcheck`): only that verdict is C02's
         fp = work / "features.ndjson"
-        tpv(["stfeat", "--seed", s, "--runs", 780 if tier == "quick" else 26000, "--out", fp], timeout=3000)
+        tpv(["stfeat", "--seed", s, "--runs", 810 if tier == "quick" else 27000, "--out", fp], timeout=3000)
         for r in read_ndjson(fp):
             if r["a"] == "Feature" and r["accepted"] and r["res"] == "SelfCheckFailed":
                 rep.violation(f"feature:selfcheck:{r['family']}", {"feature": True, "family": r["family"], "k": r["k"], "seed": s, "source": r.get("src", "")},
